@@ -103,6 +103,49 @@ def b_batch(ctx):
     ctx.sample({'sequence': [100, -200, 100, -250, 200, 0, 200, -200], 'ratios': (1.0, 0.6, 1.5)})
 
 
+@bounded('C10', 'batch-independence-per-point-gradient', shards=4)
+def b_batch_gradient(ctx):
+    """per-point stress gradient G (a Series over the points): each point's P_RAM / P_RAJ lifetime and infinite-life verdict in the batch equal the single-point run with
+    that point's G; points share the load (equal ratios) so that the recorded batch-binning findings cannot interfere"""
+    import itertools
+    import pandas as pd
+    seqs = [[100, -200, 100, -250, 200, 0, 200, -200], [150, -250, 250, -100, 200, -300]]
+    gsets = [(0.2, 10.0, 20.0), (5.0, 0.1), (30.0, 30.0, 2.0 / 15, 8.0)]
+    if ctx.tier == 'thorough':
+        seqs += [[300, 0, 240, 60, 180, 120]]
+        gsets += [(12.0, 0.5, 6.0), (1.0, 50.0)]
+    ctx.bound = f"{len(seqs)} load sequences x per-point gradients {gsets} (Steel R_m=600: n_bm differs between the points for G >~ 4), equal load ratios, P_RAM and P_RAJ"
+    ctx.rule = "non-trivial: at least two points with different support factors; distinct by (sequence, gradients)"
+    for seq, gs in itertools.product(seqs, gsets):
+        if not ctx.mine():
+            continue
+        ctx.case(len(set(gs)) > 1, key=(tuple(seq), gs))
+        ratios = (1.0,) * len(gs)
+        prm = base_params()
+        prm_b = prm.copy()
+        prm_b['G'] = pd.Series(list(gs), index=pd.Index(range(len(gs)), name='node_id'))
+        try:
+            multi = assess(prm_b, batch_series(seq, ratios))
+        except Exception as e:   # noqa
+            ctx.fail(f'C10:batch-gradient:raises:{type(e).__name__}', f'assessment with a per-point gradient {gs} raises {type(e).__name__}: {str(e)[:160]}', {'sequence': seq, 'G': gs})
+            continue
+        for i, g in enumerate(gs):
+            single = assess(base_params(G=g), pd.Series([float(v) for v in seq]))
+            for fam, keys in (('P_RAM', KEYS_RAM), ('P_RAJ', KEYS_RAJ)):
+                a, b = float(val(multi, keys[0], i)), float(val(single, keys[0]))
+                ia, ib = bool(val(multi, keys[1], i)), bool(val(single, keys[1]))
+                if ia != ib or not (a == b or abs(a - b) <= 1e-6 * max(abs(a), abs(b))):
+                    ctx.fail(f'C10:batch-gradient:{fam}', f'{fam}: point {i} (G = {g}) of {seq} with per-point gradients {gs}: lifetime {a} / infinite {ia} in the batch, {b} / {ib} alone',
+                             "import pandas as pd\nimport pylife.strength.fkm_nonlinear.assessment_nonlinear_standard as A\n"
+                             f"p = pd.Series({dict(base_params())!r})\nseq = {seq!r}; gs = {list(gs)!r}\n"
+                             "idx = pd.MultiIndex.from_product([range(len(seq)), range(len(gs))], names=['load_step', 'node_id'])\n"
+                             "pb = p.copy(); pb['G'] = pd.Series(gs, index=pd.Index(range(len(gs)), name='node_id'))\n"
+                             "multi = A.perform_fkm_nonlinear_assessment(pb, pd.Series([float(v) for v in seq for _ in gs], index=idx), calculate_P_RAM=True, calculate_P_RAJ=True)\n"
+                             f"ps = p.copy(); ps['G'] = {g}\nsingle = A.perform_fkm_nonlinear_assessment(ps, pd.Series([float(v) for v in seq]), calculate_P_RAM=True, calculate_P_RAJ=True)\n"
+                             f"print(multi['{keys[0]}'], single['{keys[0]}'])\n")
+    ctx.sample({'sequence': [100, -200, 100, -250, 200, 0, 200, -200], 'G': (0.2, 10.0, 20.0)})
+
+
 @bounded('C10', 'refinement-and-monotonicity', shards=8)
 def b_mono(ctx):
     """lifetime unchanged when non-reversal samples / repeated values are added; never increases when all loads are scaled up, the surface is rougher
